@@ -204,19 +204,27 @@ class Batch:
         if limit is None:
             limit = 400 if verdict.tier == "thorough" else 120
         rnd = random.Random(common.seed() + 17)
-        if len(elig) > limit:
-            elig = rnd.sample(elig, limit)
-        accepted, allruns, r = history.runtrace([evs for evs, _ in elig])
-        acc = set(accepted)
-        rt = verdict.cov.setdefault("runtrace", {"runs": 0, "accepted": 0, "states": 0})
-        rt["runs"] += len(allruns)
-        rt["accepted"] += len(accepted)
-        rt["states"] += r.distinct
-        for (hi, li) in allruns:
-            if (hi, li) not in acc:
-                evs, meta = elig[hi]
-                verdict.drift.append("run ending at event %d of scenario %s steps %s is not a behaviour of BreadlogRun" % (
-                    li, meta.get("scenario"), json.dumps(meta.get("steps"), default=str)[:200]))
+        groups = {}
+        for item in elig:
+            groups.setdefault(history.runtrace_group(item[0]), []).append(item)
+        for gk in sorted(groups):
+            part = groups[gk]
+            lim = limit if gk == 0 else max(20, limit // 4)
+            if len(part) > lim:
+                part = rnd.sample(part, lim)
+            accepted, allruns, r = history.runtrace([evs for evs, _ in part], maxid=gk)
+            acc = set(accepted)
+            rt = verdict.cov.setdefault("runtrace", {"runs": 0, "accepted": 0, "states": 0})
+            rt["runs"] += len(allruns)
+            rt["accepted"] += len(accepted)
+            rt["states"] += r.distinct
+            if gk:
+                rt["runs_at_top_of_id_range"] = rt.get("runs_at_top_of_id_range", 0) + len(allruns)
+            for (hi, li) in allruns:
+                if (hi, li) not in acc:
+                    evs, meta = part[hi]
+                    verdict.drift.append("run ending at event %d of scenario %s steps %s is not a behaviour of BreadlogRun" % (
+                        li, meta.get("scenario"), json.dumps(meta.get("steps"), default=str)[:200]))
 
     def judge(self, verdict, props, signature_fn=None):
         """Run Observe over everything; attribute each reported violation of a property in `props` to its
